@@ -28,7 +28,7 @@ ASSUMPTIONS = [
     "v5 loop: the broker's CONNACK carries session_present, receive-maximum and topic-alias-maximum only; the C07 window monitor on v5 traces uses min(receive-maximum of the last CONNACK, configured limit), "
     "an absent receive-maximum counting as 65535 (the client itself keeps the previous connection's limit in that case: never more than the monitor allows); a CONNACK announcing receive-maximum 0 is refused "
     "(ConnFail) and ends the connection attempt like any failure (fix 6b2911f, F38; before it the connection stayed in use with the previous limit: Loop5.lstep5_keep); the in-order retransmission clause of C11 is v4-only "
-    "(v5 clean() returns index order: there is no last_puback); topic aliases are not exercised through the loop",
+    "(v5 clean() returns index order: there is no last_puback); outbound topic aliases go through the loop (user publishes with an alias and a topic — the client API rejects alias-only publishes — under topic-alias-maxima {absent, 3, 10}); a publish refused with InvalidAlias on its FIRST attempt counts as never accepted (the user gets the error), a CARRIED one refused on retransmission is the known finding K-C02-v5-alias; inbound aliases are state-level only",
     "tokio (timers, select! fairness), the keep-alive arm and network timeouts are outside the loop model; pending_throttle is in the driver glue (virtual time), not in the Coq model beyond TakeCancelled; "
     "keep-alive is set to 3600 s in the loop driver so it never fires",
 ]
@@ -733,6 +733,8 @@ class LoopMon:
         self.max = mx
         self.ver = ver
         self.limit = mx                # v5: min(receive-maximum of the last CONNACK (absent = 65535), configured limit)
+        self.alias = {}                # v5: tag -> topic alias the user attached to the publish
+        self.known = {}                # known-finding id -> text of the first occurrence in this history
         self.viol = []
         self.sent = []                 # tags of accepted user publishes with qos > 0, in order
         self.sent_gen = {}             # tag -> number of failures before it was issued
@@ -822,6 +824,8 @@ class LoopMon:
         if t[0] == "SEND":
             if t[1] == "PUB" and t[2] != "0" and ans == "OK":
                 self.sent.append(t[5]); self.sent_gen[t[5]] = self.gen
+                if len(t) > 6 and t[6] != "-":
+                    self.alias[t[5]] = int(t[6])
             if t[1] in ("SUB", "UNSUB") or (t[1] == "PUB" and t[2] == "2"):
                 self.order_ok = False      # K30 / not a QoS1-only history
             return
@@ -849,7 +853,7 @@ class LoopMon:
             held_rel = {int(h.split(":")[1]) for h in held if h.startswith("PUBREL:")}
             for k, tag in enumerate(self.sent):
                 x = self.st.get(tag)
-                if k < self.excuse_point or tag in held_tags or (x and (x[0] == "A" or (x[0] == "R" and x[1] in held_rel))):
+                if k < self.excuse_point or tag in held_tags or (x and (x[0] in "AKN" or (x[0] == "R" and x[1] in held_rel))):
                     continue
                 if self.spurious and x is None:
                     continue
@@ -882,6 +886,26 @@ class LoopMon:
             # like any failure (fix 6b2911f, F38); its CONNACK notification, already queued, comes out
             # of a later poll and is read for session_present only (see below)
             self.nontrivial.add("v5-connack-refused")
+        if kind == "ERROR" and arg.startswith("InvalidAlias:"):
+            # v5: handle_outgoing_packet refused a publish whose topic alias exceeds the broker's maximum;
+            # select() had already taken the request (from pending or the channel): it is gone.  Requests
+            # are taken carried-over first (state.clean() in id order), so the refused one is the carried
+            # publish with that alias and the lowest id — class K-C02-v5-alias (an ACCEPTED publish is
+            # dropped) — else the oldest publish with that alias that was never on the wire (refused on its
+            # first attempt: never accepted, the user gets the error: marked N)
+            a = int(arg.split(":")[1])
+            carried = sorted((x[1], tg) for tg, x in self.st.items() if x[0] == "U" and self.cur.get(x[1]) != tg and self.alias.get(tg) == a)
+            if carried:
+                tg = carried[0][1]
+                self.st[tg][0] = "K"
+                self.known.setdefault("K-C02-v5-alias", "publish with payload %s (id %d, topic alias %d) was carried over and its retransmission was refused with %s: dropped" % (
+                    tg, carried[0][0], a, arg))
+                self.nontrivial.add("v5-alias-replay-refused")
+            else:
+                fresh = [tg for tg in self.sent if tg not in self.st and self.alias.get(tg) == a]
+                if fresh:
+                    self.st[fresh[0]] = ["N", 0]
+                    self.nontrivial.add("v5-alias-refused-first-attempt")
         if kind == "ERROR":
             self.alive = False
             self.owed_acks = []
@@ -1045,7 +1069,15 @@ def gen_loop_history(rng, model, mx, style="mixed", ver="4"):
         rm = rng.choice(["-", "-", "1", "2", str(mx), str(mx + 1), "65535"])
         if rng.chance(1, 25):
             rm = "0"
-        return do("ACCEPT %d %s" % (sp, rm))
+        # topic-alias-maximum: absent keeps the previous connection's (0 at first): aliased publishes
+        # sent under 10 are carried over to connections that allow 3 or 10
+        return do("ACCEPT %d %s %s" % (sp, rm, rng.choice(["10", "10", "3", "-"])))
+
+    def alias():
+        """v5, mixed style: now and then the user attaches a topic alias (within / above later maxima)"""
+        if v5 and style == "mixed" and rng.chance(1, 5):
+            return " %d" % rng.choice([1, 2, 3, 5, 8, 12])
+        return ""
 
     def hangup():
         """the connection ends: the broker closes it, or (v5) announces it with DISCONNECT"""
@@ -1067,7 +1099,7 @@ def gen_loop_history(rng, model, mx, style="mixed", ver="4"):
         accept again with an acceptable one"""
         accept(sp); a = do("POLL"); note(a)
         if a.startswith("ERROR ConnFail"):
-            do("ACCEPT %d %s" % (sp, rng.choice(["-", "1", str(mx)]))); a = do("POLL"); note(a)
+            do("ACCEPT %d %s 10" % (sp, rng.choice(["-", "1", str(mx)]))); a = do("POLL"); note(a)
         return a
 
     unacked, rel, tag = {}, [], 0       # broker view of this connection
@@ -1202,7 +1234,7 @@ def gen_loop_history(rng, model, mx, style="mixed", ver="4"):
                 elif kind == 1:
                     do("SEND PUB 0 0 %d %d" % (tag % 50, tag))
                 else:
-                    do("SEND PUB %d 0 %d %d" % (2 if rng.chance(1, 3) else 1, tag % 50, tag))
+                    do("SEND PUB %d 0 %d %d%s" % (2 if rng.chance(1, 3) else 1, tag % 50, tag, alias()))
             a = drain()
         elif r < 80 and (unacked or rel):
             pk = []
@@ -1253,11 +1285,12 @@ LOOP_CUT = ("AMBIG", "NOCONN", "DISABLED", "PANIC")
 
 def loop_family_moves(ver):
     """the alphabet of the exhaustive loop families: (op, session_present of the reconnect that
-    follows a failure, receive-maximum of that CONNACK)"""
-    mv = [("SEND PUB 1 0 1 {t}", 1, "-"), ("SEND PUB 2 0 1 {t}", 1, "-"), ("NET PUBACK 1", 1, "-"), ("NET PUBACK 2", 1, "-"),
-          ("NET PUBREC 1", 1, "-"), ("NET PUBCOMP 1", 1, "-"), ("DROP", 1, "-"), ("DROP", 0, "-")]
+    follows a failure, receive-maximum and topic-alias-maximum of that CONNACK)"""
+    mv = [("SEND PUB 1 0 1 {t}", 1, "-", "10"), ("SEND PUB 2 0 1 {t}", 1, "-", "10"), ("NET PUBACK 1", 1, "-", "10"), ("NET PUBACK 2", 1, "-", "10"),
+          ("NET PUBREC 1", 1, "-", "10"), ("NET PUBCOMP 1", 1, "-", "10"), ("DROP", 1, "-", "10"), ("DROP", 0, "-", "10")]
     if ver == "5":
-        mv += [("NET PUBREC 1 128", 1, "-"), ("DROP", 1, "1"), ("NET DISCONNECT 139", 1, "-")]
+        mv += [("NET PUBREC 1 128", 1, "-", "10"), ("DROP", 1, "1", "10"), ("NET DISCONNECT 139", 1, "-", "10"),
+               ("SEND PUB 1 0 1 {t} 5", 1, "-", "10"), ("DROP", 1, "-", "3")]
     return mv
 
 
@@ -1285,16 +1318,16 @@ def loop_family(model, ver, mx, k):
             return a
 
         do("%s %d 0" % ("LNEW5" if v5 else "LNEW", mx))
-        do("ACCEPT 1"); settle()
+        do("ACCEPT 1 - 10" if v5 else "ACCEPT 1"); settle()
         tag = 0
-        for (op, sp, rm) in seq:
+        for (op, sp, rm, tam) in seq:
             tag += 1
             do(op.format(t=tag))
             a = settle()
             if a in LOOP_CUT:
                 break
             if a.startswith("ERROR"):
-                do("ACCEPT %d%s" % (sp, " " + rm if v5 and rm != "-" else ""))
+                do("ACCEPT %d%s" % (sp, " %s %s" % (rm, tam) if v5 else ""))
                 a = settle()
                 if a in LOOP_CUT:
                     break
@@ -1369,7 +1402,7 @@ def loop_run(ctx, mexe):
     Client/Loop5.v, plus the loop monitors on the implementation's answers"""
     import subprocess
     res = {"histories": 0, "ops": 0, "div": [], "viol": {p: [] for p in SHARED}, "nontrivial": {}, "built": False,
-           "truncated": 0, "samples": [], "by_version": {"4": 0, "5": 0}, "groups": {}, "nontrivial_v5": {}}
+           "truncated": 0, "samples": [], "by_version": {"4": 0, "5": 0}, "groups": {}, "nontrivial_v5": {}, "known": {}}
     lexe, out = lib.cargo_driver("clientloop")
     if os.environ.get("VERIF_CLIENTLOOP_IMPL"):
         lexe = os.environ["VERIF_CLIENTLOOP_IMPL"]
@@ -1405,6 +1438,15 @@ def loop_run(ctx, mexe):
     for mx, ops, mans in loop_renegotiate_family(model):
         keep("5", mx, "renegotiate-then-second-failure", ops, mans)
     model.stdin.close(); model.wait()
+    kdir = os.path.join(lib.ROOT, "corpus", "known")
+    for f in sorted(os.listdir(kdir)) if os.path.isdir(kdir) else []:
+        # witnesses of the client's known findings: run every time, so the KNOWN-FINDING line is
+        # printed as long as the behaviour is there
+        if f.startswith("k-c02-v5") and f.endswith(".txt"):
+            h = [l.strip() for l in open(os.path.join(kdir, f)).read().splitlines() if l.strip() and not l.startswith("#")]
+            rc0, mans, _ = lib.run_on_text(mexe, "\n".join(h) + "\n", args=["loop"])
+            if rc0 == 0 and len(mans) == len(h):
+                keep("5", int(h[0].split()[1]), "known-witness", h, mans)
     for ver, prefix in (("4", "loop"), ("5", "loop5")):
         for h in corpus_histories(ver, prefix):
             if ver == "4" and not h[0].startswith("LNEW "):
@@ -1439,6 +1481,11 @@ def loop_run(ctx, mexe):
             res["nontrivial"][tg] = res["nontrivial"].get(tg, 0) + 1
             if ver == "5":
                 res["nontrivial_v5"][tg] = res["nontrivial_v5"].get(tg, 0) + 1
+        for kid, txt in mon.known.items():
+            e = res["known"].setdefault(kid, {"count": 0, "history": ops, "text": txt})
+            e["count"] += 1
+            if len(ops) < len(e["history"]):
+                e["history"], e["text"] = ops, txt
         for (p, txt) in mon.viol:
             if len(res["viol"][p]) < 200:
                 res["viol"][p].append({"history": ops, "text": ("(v5 event loop) " if ver == "5" else "") + txt})
@@ -2040,9 +2087,9 @@ def run(ctx):
                             "drops incl. inside a read batch, reconnects with/without session, second failure before pending is drained; order: QoS1 in-order with repeated failures; burst: 9-25 packets readable "
                             "in one poll; throttle: pending_throttle > 0 with broker writes during the wait), max_inflight in {1,2,3,4,5}, plus the exhaustive families: every sequence of %d moves over "
                             "{publish QoS1, publish QoS2, PUBACK 1, PUBACK 2, PUBREC 1, PUBCOMP 1, drop+resume, drop+new session} (v5 also: PUBREC 1 with a failure reason, drop+resume with receive-maximum 1, "
-                            "server DISCONNECT) for max_inflight 1 and 2, polled to idle after each move; v5 also the family 'receive-maximum lowered below a held id, then a second failure': max_inflight 2-4, all in flight, "
+                            "server DISCONNECT, publish QoS1 with topic alias 5, drop+resume with topic-alias-maximum 3) for max_inflight 1 and 2, polled to idle after each move; v5 also the family 'receive-maximum lowered below a held id, then a second failure': max_inflight 2-4, all in flight, "
                             "0..max-1 acknowledged, failure, resume with receive-maximum 1..max-1, 0-2 acks, second failure, resume, all acknowledged. v5 only: every CONNACK carries a receive-maximum from {absent, 1, 2, max, max+1, 65535, rarely 0}, "
-                            "acks carry reason codes now and then, the server sometimes sends DISCONNECT instead of closing. "
+                            "acks carry reason codes now and then, the server sometimes sends DISCONNECT instead of closing, every CONNACK carries a topic-alias-maximum from {10, 3, absent} and (mixed style, exhaustive families) some publishes carry a topic alias. "
                             "A history is cut where both the network and the request arm of select! are ready (tokio picks at random)" % (4 if th else 3))
     if r["driver_failure"]:
         ctx.violation("driver-failed", r["driver_failure"], False, "a driver did not answer every op")
@@ -2088,6 +2135,18 @@ def run(ctx):
         content += "\n".join(small) + "\n"
         ctx.violation("input", content, True, txt)
         reported = True
+    # ---- known findings identified by the loop monitor (class rule in LoopMon.feed)
+    for kid, e in sorted((lp.get("known") or {}).items()):
+        entry = next((k for k in kentries if k.get("id") == kid), None)
+        if entry is not None:
+            ctx.known_finding(entry["line"])
+        elif prop == "C02" and not reported:
+            # the class is not (or no longer) registered as a known finding of this property: a plain loss
+            content = "# %s replay (event loop, end to end): one op per line; run: ./check %s --replay <this file>\n# %s\n" % (prop, prop, e["text"])
+            content += "\n".join(e["history"]) + "\n"
+            ctx.violation("input-loop", content, True, e["text"])
+            reported = True
+    ctx.cov["loop_known_finding_histories"] = {kid: e["count"] for kid, e in (lp.get("known") or {}).items()}
     # ---- the event loop, end to end
     if lp and not reported:
         if not lp.get("built") or lp.get("driver_failure"):
@@ -2157,6 +2216,14 @@ def replay(ctx, path):
             mon.feed(l, a)
             if a != m:
                 rc = 1
+        for kid, t in mon.known.items():
+            entry = next((k for k in known_entries("C02") if k.get("id") == kid), None)
+            if entry is not None:
+                print("KNOWN-FINDING: property=C02 %s\n   here: %s" % (entry["line"], t))
+            else:
+                print("monitor C02: %s" % t)
+                if ctx.prop == "C02":
+                    rc = 1
         for (p, t) in mon.viol:
             print("monitor %s: %s" % (p, t))
             if p == ctx.prop:
